@@ -127,6 +127,22 @@ class. Candidate classes — choose one that fits this property, or a comparable
 Say in `needs` exactly which class the bug needs. The change must keep the existing tests green and look like an ordinary
 edit (refactoring, clean-up, micro-optimisation, defensive check). It must NOT repeat a site or mechanism listed above.
 Make sure the demo shows the violation through one of the public observables listed under "observe_at".""",
+    10: """Earlier rounds already covered a wide range of mechanisms (wrong variables, caches, aliasing, dtype, iteration and
+vectorisation slips, angle / quaternion conventions, entry points disagreeing, error handling, over-correcting fixes,
+de-duplication, input-class-specific shortcuts, defaults dropped by setdefault, regex prefix matches).
+This time play a developer who EXTENDS the library and, while doing so, shifts existing behaviour:
+ (a) a NEW ENUM MEMBER (a label such as `trailer` / `cone`, a traffic-light state, a FrameID for a new sensor, a MatchingMode,
+     a Visibility level, an EvaluationTask) or a new entry in a lookup table, inserted so that positions / indices / prefixes /
+     `in (...)` tuples / "first match wins" loops that existing code relies on now resolve differently for some EXISTING member;
+ (b) a NEW OPTIONAL PARAMETER or configuration key whose default is not behaviour-preserving on every path, or which is threaded
+     through one call chain but not its sibling (frame level vs scene level, 2D vs 3D, estimates vs ground truths);
+ (c) a SUBCLASS / OVERRIDE / MIXIN (e.g. a specialised object, matching or metric class; a `__post_init__`, `__getattr__`,
+     `@property` replacing an attribute) that changes what the base-class code sees for existing objects;
+ (d) SUPPORT FOR A NEW SHAPE / UNIT / CONVENTION (polygon footprints, cylinders, degrees in configs, millisecond timestamps,
+     left-handed frames) implemented by normalising inputs early — and the normalisation also touches inputs of the old kind.
+The new feature itself must work (show it in one line of the demo), the existing tests must stay green, and the property must
+break for EXISTING kinds of input that have nothing to do with the new feature. It must NOT repeat a site or mechanism listed
+above. Make sure the demo shows the violation through one of the public observables listed under "observe_at".""",
 }
 
 TEMPLATE = """You are helping to measure how sensitive a verification effort is. You will SEED A BUG.
